@@ -1,0 +1,44 @@
+//go:build verif
+
+// Contracts for govc (see /verif/DESIGN.md). Comment-only file: no executable code.
+
+package service
+
+// ---------------------------------------------------------------------------
+// C11: a transaction is accepted only if its timestamp lies in (block time - th, block time + th]
+// ---------------------------------------------------------------------------
+
+//@ property C11
+//@ spec inWindow(lo, hi, ts) = lo < ts && ts <= hi
+
+//@ func CheckTxTimestamp(min, max, tx) (err)
+//@   arith bv
+//@   pure
+//@   requires tx != nil
+//@   ensures [window] err == nil <==> inWindow(min, max, int64(tx_ts(tx)))
+
+//@ func (r *timestampRange) CheckTx(tx) (err)
+//@   arith bv
+//@   pure
+//@   requires r != nil && tx != nil
+//@   ensures [window] err == nil <==> inWindow(r.min, r.max, int64(tx_ts(tx)))
+
+// Timestamps and thresholds are microsecond counts; the range arithmetic is exact for |values| < 2^62.
+//@ spec tsSane(bts, th) = -0x4000000000000000 < bts && bts < 0x4000000000000000 && 0 <= th && th < 0x4000000000000000
+
+//@ func NewTimestampRange(bts, th) (r)
+//@   requires tsSane(bts, th)
+//@   ensures [range] typeof(r) == typeid(ptr_timestampRange) && as(ptr_timestampRange, r) != nil && as(ptr_timestampRange, r).min == bts - th && as(ptr_timestampRange, r).max == bts + th
+//@   ensures fresh(as(ptr_timestampRange, r))
+
+//@ func TransactionTimestampThreshold(wc, g) (th)
+//@   pure
+//@   requires wc != nil
+//@   ensures g == module.TransactionGroupNormal ==> th == ((int64(wc_txth(wc)) == 0) ? ConfigTXTimestampThresholdDefault : int64(wc_txth(wc)))
+//@   ensures g != module.TransactionGroupNormal ==> th == ConfigPatchTimestampThreshold
+
+//@ func NewTxTimestampRangeFor(c, g) (r)
+//@   requires c != nil && tsSane(int64(wc_bts(c)), int64(wc_txth(c)))
+//@   ensures [range] typeof(r) == typeid(ptr_timestampRange) && as(ptr_timestampRange, r) != nil
+//@   ensures [normal] g == module.TransactionGroupNormal ==> as(ptr_timestampRange, r).min == int64(wc_bts(c)) - ((int64(wc_txth(c)) == 0) ? ConfigTXTimestampThresholdDefault : int64(wc_txth(c))) && as(ptr_timestampRange, r).max == int64(wc_bts(c)) + ((int64(wc_txth(c)) == 0) ? ConfigTXTimestampThresholdDefault : int64(wc_txth(c)))
+//@   ensures [patch] g != module.TransactionGroupNormal ==> as(ptr_timestampRange, r).min == int64(wc_bts(c)) - ConfigPatchTimestampThreshold && as(ptr_timestampRange, r).max == int64(wc_bts(c)) + ConfigPatchTimestampThreshold
